@@ -121,6 +121,9 @@ var plans = []planT{
 	// distribution points that differ in nothing but their query string
 	{c: []string{"clean", "lists"}, ck: []string{"httpq", "httpq"}},
 	{o: []string{"unknown-status"}, c: []string{"delta-ok", "clean", "delta-lists"}, ck: []string{"httpq", "httpq", "httpq"}},
+	// answers whose meaning depends on the caller's signing time
+	{o: []string{"revoked-inv-after"}},
+	{o: []string{"err", "revoked-inv-after"}, c: []string{"clean"}},
 }
 
 func mkScenario(length int, assign []int, entry, route, cache string) sims.Scenario {
@@ -260,6 +263,15 @@ func Cases(quick bool, seed int64) []Case {
 				a.PreloadStale, b.PreloadStale = true, true
 			}
 			out = append(out, Case{Kind: "callers", Sc: a, Sc2: &b, Callers: n})
+			if n >= 2 {
+				// the SAME chain checked by callers that supply a signing time and by
+				// callers that do not: a responder's "revoked, invalid since <later>"
+				// excuses the former only
+				w := mkScenario(4, []int{18, 19, 5}, "validate", "http", "healthy")
+				wo := w
+				wo.WithST = false
+				out = append(out, Case{Kind: "callers", Sc: w, Sc2: &wo, Callers: n})
+			}
 		}
 	}
 	// concurrent callers where a fault (cancellation / a single panic) hits ONE
@@ -903,7 +915,11 @@ func execCallers(rec *Record, c Case) {
 				for rep := 0; rep < 3; rep++ {
 					o := &sims.Outcome{Chain: env.Chain}
 					o.Panic = core.Guard(func() {
-						o.Results, o.Err = v.ValidateContext(context.Background(), revocation.ValidateContextOptions{CertChain: env.Chain, AuthenticSigningTime: sims.SigningTime})
+						var st time.Time
+						if env.Sc.WithST {
+							st = sims.SigningTime
+						}
+						o.Results, o.Err = v.ValidateContext(context.Background(), revocation.ValidateContextOptions{CertChain: env.Chain, AuthenticSigningTime: st})
 					})
 					results <- res{i % 2, o}
 				}
